@@ -36,6 +36,7 @@ type caseT struct {
 	Tx      []uint64 `json:"t"` // txs whose record or values are altered
 	Note    string   `json:"n"`
 	Edits   []edit   `json:"e"`
+	Pre     bool     `json:"p,omitempty"` // first an ExportTx(skipIntegrityCheck=true) of every tx (its result is not judged)
 	Confirm bool     `json:"c,omitempty"` // solo re-run: 60 s limit, no repair of a leaked lock
 	Witness string   `json:"w,omitempty"` // replay: directory holding the pristine files
 }
@@ -76,6 +77,7 @@ type checker struct {
 	hit   map[uint64]bool
 	abort bool
 	big   bool
+	rep   string // "" on the first round of reads, "-repeated" on the second one over the same open store
 }
 
 func (k *checker) setStep(s string) { k.mu.Lock(); k.step = s; k.mu.Unlock() }
@@ -85,6 +87,14 @@ func (k *checker) find(sig, f string, a ...any) {
 	// a whole well-formed record sitting at another tx's place is one situation, whatever read path shows it
 	if k.cs.Kind == "splice" && (k.cs.Field == "record" || k.cs.Field == "record-swap") && !strings.Contains(sig, "-after-splice") && !strings.Contains(sig, ".") {
 		sig += "-after-record-splice"
+	}
+	if k.rep != "" && !strings.Contains(sig, ".") {
+		if k.sigs[sig] {
+			return // the first round of reads showed the same thing already
+		}
+		if i := strings.IndexByte(sig, '/'); i > 0 {
+			sig = sig[:i] + k.rep + sig[i:]
+		}
 	}
 	if k.sigs[sig] {
 		return
@@ -98,7 +108,7 @@ func (k *checker) observe(tx uint64, path, outcome string) {
 	if tx != 0 && !k.hit[tx] {
 		return
 	}
-	o := path + "|" + outcome
+	o := path + k.rep + "|" + outcome
 	if !k.obs[o] {
 		k.obs[o] = true
 		k.res.Obs = append(k.res.Obs, o)
@@ -331,142 +341,170 @@ func (k *checker) run() {
 
 	tx := store.NewTx(8, 32)
 	tx2 := store.NewTx(8, 32)
-	for id := uint64(1); id <= n && !k.abort; id++ {
-		t := &g.Txs[id-1]
-		// ReadTx
-		var rerr error
-		k.call("readtx", func() { rerr = st.ReadTx(id, false, tx) })
-		if k.abort {
+	if k.cs.Pre {
+		// what a replica export does: unchecked reads first (not judged); the checked reads that follow on
+		// the same open store must still be error-or-identical
+		k.setStep("unchecked-exporttx")
+		panicked := false
+		func() {
+			defer func() {
+				if r := recover(); r != nil {
+					panicked = true
+				}
+			}()
+			for id := uint64(1); id <= n; id++ {
+				st.ExportTx(id, false, true, tx2)
+			}
+		}()
+		if panicked {
+			k.observe(0, "unchecked-exporttx", "panic(not-judged)")
 			return
 		}
-		readOK := false
-		if rerr != nil {
-			k.observe(id, "readtx", errClass(rerr))
-		} else if d := k.txDiff(tx, id); d != "" {
-			k.observe(id, "readtx", "DIFFERENT:"+d)
-			k.find("readtx/"+k.spliceSuffix(d), "ReadTx(%d) returned without error a tx that differs from the committed one (%s; header id %d) [%s]", id, d, tx.Header().ID, k.cs.Note)
-		} else {
-			readOK = true
-			o := "identical"
-			for i, e := range tx.Entries() {
-				if refDiffers(e, t, i) {
-					o = "identical-content/value-ref-differs"
-				}
-			}
-			k.observe(id, "readtx", o)
+		if probeValBsMux(st, true) {
+			k.observe(0, "unchecked-exporttx", "lock-left-held(not-judged,released)")
 		}
-		// ReadValue of every entry
-		if readOK {
-			for i, e := range tx.Entries() {
-				var v []byte
-				var verr error
-				if e.VLen() > hugeLen {
-					k.res.HugeSkipped++
-					k.observe(id, "readvalue", "not-called(length-over-16MiB)")
-					continue
-				}
-				if e.VLen() > 4<<20 {
-					k.big = true
-				}
-				k.call("readvalue", func() { v, verr = st.ReadValue(e) })
-				if k.abort {
-					return
-				}
-				w := t.Rec.Entries[i]
-				switch {
-				case verr != nil:
-					o := errClass(verr)
-					if t.ReadValErr[i] != "" && !refDiffers(e, t, i) {
-						o = "identical(" + o + ")"
+	}
+	// every read is made twice on the same open store: what a first read leaves behind (caches) must not
+	// change the answer of the second
+	for _, k.rep = range []string{"", "-repeated"} {
+		for id := uint64(1); id <= n && !k.abort; id++ {
+			t := &g.Txs[id-1]
+			// ReadTx
+			var rerr error
+			k.call("readtx", func() { rerr = st.ReadTx(id, false, tx) })
+			if k.abort {
+				return
+			}
+			readOK := false
+			if rerr != nil {
+				k.observe(id, "readtx", errClass(rerr))
+			} else if d := k.txDiff(tx, id); d != "" {
+				k.observe(id, "readtx", "DIFFERENT:"+d)
+				k.find("readtx/"+k.spliceSuffix(d), "ReadTx(%d) returned without error a tx that differs from the committed one (%s; header id %d) [%s]", id, d, tx.Header().ID, k.cs.Note)
+			} else {
+				readOK = true
+				o := "identical"
+				for i, e := range tx.Entries() {
+					if refDiffers(e, t, i) {
+						o = "identical-content/value-ref-differs"
 					}
-					k.observe(id, "readvalue", o)
-				case bytes.Equal(v, w.Value):
-					k.observe(id, "readvalue", "identical")
-				case e.VLen() == 0 && len(v) == 0:
-					k.observe(id, "readvalue", "DIFFERENT:vlen-zero-served-empty")
-					k.find("readvalue/vlen-zero-served-empty", "ReadValue(tx %d, entry %d %q) returned an empty value without error; the committed value has %d bytes (value length read as 0, digest not compared) [%s]", id, i, w.Key, len(w.Value), k.cs.Note)
-				default:
-					k.observe(id, "readvalue", "DIFFERENT:value")
-					k.find("readvalue/different-value", "ReadValue(tx %d, entry %d %q) returned %d bytes that differ from the committed %d bytes without error [%s]", id, i, w.Key, len(v), len(w.Value), k.cs.Note)
+				}
+				k.observe(id, "readtx", o)
+			}
+			// ReadValue of every entry
+			if readOK {
+				for i, e := range tx.Entries() {
+					var v []byte
+					var verr error
+					if e.VLen() > hugeLen {
+						k.res.HugeSkipped++
+						k.observe(id, "readvalue", "not-called(length-over-16MiB)")
+						continue
+					}
+					if e.VLen() > 4<<20 {
+						k.big = true
+					}
+					k.call("readvalue", func() { v, verr = st.ReadValue(e) })
+					if k.abort {
+						return
+					}
+					w := t.Rec.Entries[i]
+					switch {
+					case verr != nil:
+						o := errClass(verr)
+						if t.ReadValErr[i] != "" && !refDiffers(e, t, i) {
+							o = "identical(" + o + ")"
+						}
+						k.observe(id, "readvalue", o)
+					case bytes.Equal(v, w.Value):
+						k.observe(id, "readvalue", "identical")
+					case e.VLen() == 0 && len(v) == 0:
+						k.observe(id, "readvalue", "DIFFERENT:vlen-zero-served-empty")
+						k.find("readvalue/vlen-zero-served-empty", "ReadValue(tx %d, entry %d %q) returned an empty value without error; the committed value has %d bytes (value length read as 0, digest not compared) [%s]", id, i, w.Key, len(w.Value), k.cs.Note)
+					default:
+						k.observe(id, "readvalue", "DIFFERENT:value")
+						k.find("readvalue/different-value", "ReadValue(tx %d, entry %d %q) returned %d bytes that differ from the committed %d bytes without error [%s]", id, i, w.Key, len(v), len(w.Value), k.cs.Note)
+					}
 				}
 			}
-		}
-		// ReadTxHeader
-		var h *store.TxHeader
-		k.call("readtxheader", func() { h, rerr = st.ReadTxHeader(id, false, false) })
-		if k.abort {
-			return
-		}
-		if rerr != nil {
-			k.observe(id, "readtxheader", errClass(rerr))
-		} else if d := k.hdrDiff(h, id); d != "" {
-			k.observe(id, "readtxheader", "DIFFERENT:"+d)
-			k.find("readtxheader/"+k.spliceSuffix(d), "ReadTxHeader(%d) returned without error a header that differs from the committed one (%s; header id %d) [%s]", id, d, h.ID, k.cs.Note)
-		} else {
-			k.observe(id, "readtxheader", "identical")
-		}
-		// ReadTxEntry of every committed key
-		for i, w := range t.Rec.Entries {
-			var e *store.TxEntry
-			k.call("readtxentry", func() { e, h, rerr = st.ReadTxEntry(id, w.Key, false) })
+			// ReadTxHeader
+			var h *store.TxHeader
+			k.call("readtxheader", func() { h, rerr = st.ReadTxHeader(id, false, false) })
 			if k.abort {
 				return
 			}
 			if rerr != nil {
-				k.observe(id, "readtxentry", errClass(rerr))
-				continue
+				k.observe(id, "readtxheader", errClass(rerr))
+			} else if d := k.hdrDiff(h, id); d != "" {
+				k.observe(id, "readtxheader", "DIFFERENT:"+d)
+				k.find("readtxheader/"+k.spliceSuffix(d), "ReadTxHeader(%d) returned without error a header that differs from the committed one (%s; header id %d) [%s]", id, d, h.ID, k.cs.Note)
+			} else {
+				k.observe(id, "readtxheader", "identical")
 			}
-			d := k.hdrDiff(h, id)
-			if d == "" {
-				d = k.entryDiff(e, id, i)
+			// ReadTxEntry of every committed key
+			for i, w := range t.Rec.Entries {
+				var e *store.TxEntry
+				k.call("readtxentry", func() { e, h, rerr = st.ReadTxEntry(id, w.Key, false) })
+				if k.abort {
+					return
+				}
+				if rerr != nil {
+					k.observe(id, "readtxentry", errClass(rerr))
+					continue
+				}
+				d := k.hdrDiff(h, id)
+				if d == "" {
+					d = k.entryDiff(e, id, i)
+				}
+				if d != "" {
+					k.observe(id, "readtxentry", "DIFFERENT:"+d)
+					k.find("readtxentry/"+k.spliceSuffix(d), "ReadTxEntry(%d, %q) returned without error content that differs from the committed one (%s) [%s]", id, w.Key, d, k.cs.Note)
+					continue
+				}
+				k.observe(id, "readtxentry", "identical")
 			}
-			if d != "" {
-				k.observe(id, "readtxentry", "DIFFERENT:"+d)
-				k.find("readtxentry/"+k.spliceSuffix(d), "ReadTxEntry(%d, %q) returned without error content that differs from the committed one (%s) [%s]", id, w.Key, d, k.cs.Note)
-				continue
+			// ExportTx
+			var xb []byte
+			if readOK {
+				huge := false
+				for _, e := range tx.Entries() {
+					huge = huge || e.VLen() > hugeLen
+				}
+				if huge {
+					k.res.HugeSkipped++
+					k.observe(id, "exporttx", "not-called(length-over-16MiB)")
+					continue
+				}
 			}
-			k.observe(id, "readtxentry", "identical")
-		}
-		// ExportTx
-		var xb []byte
-		if readOK {
-			huge := false
-			for _, e := range tx.Entries() {
-				huge = huge || e.VLen() > hugeLen
-			}
-			if huge {
-				k.res.HugeSkipped++
-				k.observe(id, "exporttx", "not-called(length-over-16MiB)")
-				continue
-			}
-		}
-		k.call("exporttx", func() { xb, rerr = st.ExportTx(id, false, false, tx2) })
-		if k.abort {
-			return
-		}
-		switch {
-		case rerr != nil:
-			k.observe(id, "exporttx", errClass(rerr))
-		case bytes.Equal(xb, t.Export):
-			k.observe(id, "exporttx", "identical")
-		case bytes.Equal(xb, t.ExportTrunc):
-			// the export says: values not available (digests only, truncation flag set); nothing is served as a value
-			k.observe(id, "exporttx", "values-reported-unavailable")
-		default:
-			k.observe(id, "exporttx", "DIFFERENT:bytes")
-			k.find("exporttx/different-bytes", "ExportTx(%d) returned without error %d bytes that differ from the export of the committed tx (%d bytes; first difference at %d) [%s]", id, len(xb), len(t.Export), firstDiff(xb, t.Export), k.cs.Note)
-		}
-		if probeValBsMux(st, !k.cs.Confirm) {
-			k.observe(id, "exporttx", "LOCK-LEFT-HELD("+fmt.Sprint(rerr != nil)+")")
-			if k.cs.Confirm {
-				// confirm the consequence for real: the next export never returns (the watchdog reports the hang)
-				k.setStep("exporttx-after-lock-left-held")
-				st.ExportTx(id, false, false, tx2)
+			k.call("exporttx", func() { xb, rerr = st.ExportTx(id, false, false, tx2) })
+			if k.abort {
 				return
 			}
-			k.find("exporttx/returns-holding-export-lock", "ExportTx(%d) returned (%v) with the store's export-buffer mutex still locked: every later ExportTx blocks forever [%s]", id, rerr, k.cs.Note)
+			switch {
+			case rerr != nil:
+				k.observe(id, "exporttx", errClass(rerr))
+			case bytes.Equal(xb, t.Export):
+				k.observe(id, "exporttx", "identical")
+			case bytes.Equal(xb, t.ExportTrunc):
+				// the export says: values not available (digests only, truncation flag set); nothing is served as a value
+				k.observe(id, "exporttx", "values-reported-unavailable")
+			default:
+				k.observe(id, "exporttx", "DIFFERENT:bytes")
+				k.find("exporttx/different-bytes", "ExportTx(%d) returned without error %d bytes that differ from the export of the committed tx (%d bytes; first difference at %d) [%s]", id, len(xb), len(t.Export), firstDiff(xb, t.Export), k.cs.Note)
+			}
+			if probeValBsMux(st, !k.cs.Confirm) {
+				k.observe(id, "exporttx", "LOCK-LEFT-HELD("+fmt.Sprint(rerr != nil)+")")
+				if k.cs.Confirm {
+					// confirm the consequence for real: the next export never returns (the watchdog reports the hang)
+					k.setStep("exporttx-after-lock-left-held")
+					st.ExportTx(id, false, false, tx2)
+					return
+				}
+				k.find("exporttx/returns-holding-export-lock", "ExportTx(%d) returned (%v) with the store's export-buffer mutex still locked: every later ExportTx blocks forever [%s]", id, rerr, k.cs.Note)
+			}
 		}
 	}
+	k.rep = ""
 	if k.abort {
 		return
 	}
@@ -689,94 +727,97 @@ func (k *checker) index(st *store.ImmuStore, lg *idxLogger) {
 		return true
 	}
 
-	for _, gk := range g.Keys {
-		if k.abort {
-			return
-		}
-		var ref store.ValueRef
-		var err error
-		k.call("get-after-reindex", func() { ref, err = st.Get(context.Background(), gk.Key) })
-		if k.abort {
-			return
-		}
-		last := uint64(0)
-		if len(gk.Versions) > 0 {
-			last = gk.Versions[len(gk.Versions)-1]
-		}
-		switch {
-		case err != nil:
-			o := errClass(err)
-			if caughtUp && gk.GetErr == "" && errors.Is(err, store.ErrKeyNotFound) {
-				k.observe(last, "get-after-reindex", "DIFFERENT:key-not-found")
-				k.find("get-after-reindex/key-missing-index-caught-up", "Get(%q) says key not found although the index reports having indexed all %d txs and the committed log holds the key in tx %d [%s]", gk.Key, n, last, k.cs.Note)
-			} else {
-				if err.Error() == gk.GetErr {
-					o = "identical(" + o + ")"
-				}
-				k.observe(last, "get-after-reindex", o)
+	defer func() { k.rep = "" }()
+	for _, k.rep = range []string{"", "-repeated"} {
+		for _, gk := range g.Keys {
+			if k.abort {
+				return
 			}
-		default:
-			if !checkRef("get-after-reindex", gk.Key, ref) {
-				break
+			var ref store.ValueRef
+			var err error
+			k.call("get-after-reindex", func() { ref, err = st.Get(context.Background(), gk.Key) })
+			if k.abort {
+				return
+			}
+			last := uint64(0)
+			if len(gk.Versions) > 0 {
+				last = gk.Versions[len(gk.Versions)-1]
 			}
 			switch {
-			case caughtUp && gk.GetErr != "":
-				k.observe(last, "get-after-reindex", "DIFFERENT:serves-filtered")
-				k.find("get-after-reindex/serves-version-the-committed-log-hides", "Get(%q) returned tx %d; on the committed data it answers %q [%s]", gk.Key, ref.Tx(), gk.GetErr, k.cs.Note)
-			case caughtUp && (ref.Tx() != gk.GetTx || ref.HC() != gk.GetHC):
-				k.observe(last, "get-after-reindex", "DIFFERENT:stale")
-				k.find("get-after-reindex/stale-version-index-caught-up", "Get(%q) returned tx %d (hc %d) although the index reports having indexed all %d txs; the committed log says tx %d (hc %d) [%s]", gk.Key, ref.Tx(), ref.HC(), n, gk.GetTx, gk.GetHC, k.cs.Note)
-			case caughtUp:
-				k.observe(last, "get-after-reindex", "identical")
-			default:
-				k.observe(ref.Tx(), "get-after-reindex", "genuine-version(index-lagging)")
-			}
-		}
-		var refs []store.ValueRef
-		k.call("history-after-reindex", func() { refs, _, err = st.History(gk.Key, 0, false, 100) })
-		if k.abort {
-			return
-		}
-		if err != nil {
-			o := errClass(err)
-			if err.Error() == gk.HistErr {
-				o = "identical(" + o + ")"
-			}
-			if caughtUp && gk.HistErr == "" {
-				k.observe(last, "history-after-reindex", "DIFFERENT:error-on-caught-up-index")
-				if errors.Is(err, store.ErrKeyNotFound) {
-					k.find("history-after-reindex/key-missing-index-caught-up", "History(%q) says key not found although the index reports having indexed all %d txs [%s]", gk.Key, n, k.cs.Note)
+			case err != nil:
+				o := errClass(err)
+				if caughtUp && gk.GetErr == "" && errors.Is(err, store.ErrKeyNotFound) {
+					k.observe(last, "get-after-reindex", "DIFFERENT:key-not-found")
+					k.find("get-after-reindex/key-missing-index-caught-up", "Get(%q) says key not found although the index reports having indexed all %d txs and the committed log holds the key in tx %d [%s]", gk.Key, n, last, k.cs.Note)
+				} else {
+					if err.Error() == gk.GetErr {
+						o = "identical(" + o + ")"
+					}
+					k.observe(last, "get-after-reindex", o)
 				}
-			} else {
-				k.observe(last, "history-after-reindex", o)
-			}
-			continue
-		}
-		var got []uint64
-		for _, r := range refs {
-			got = append(got, r.Tx())
-		}
-		isPrefix := len(got) <= len(gk.Versions)
-		for i := 0; isPrefix && i < len(got); i++ {
-			isPrefix = got[i] == gk.Versions[i]
-		}
-		switch {
-		case !isPrefix:
-			k.observe(last, "history-after-reindex", "DIFFERENT:versions")
-			k.find("history-after-reindex/versions-differ", "History(%q) returned txs %v, the committed log says %v [%s]", gk.Key, got, gk.Versions, k.cs.Note)
-		case caughtUp && len(got) != len(gk.Versions):
-			k.observe(last, "history-after-reindex", "DIFFERENT:short")
-			k.find("history-after-reindex/versions-missing-index-caught-up", "History(%q) returned txs %v although the index reports having indexed all %d txs; the committed log says %v [%s]", gk.Key, got, n, gk.Versions, k.cs.Note)
-		default:
-			for _, r := range refs {
-				if !checkRef("history-after-reindex", gk.Key, r) || k.abort {
+			default:
+				if !checkRef("get-after-reindex", gk.Key, ref) {
 					break
 				}
+				switch {
+				case caughtUp && gk.GetErr != "":
+					k.observe(last, "get-after-reindex", "DIFFERENT:serves-filtered")
+					k.find("get-after-reindex/serves-version-the-committed-log-hides", "Get(%q) returned tx %d; on the committed data it answers %q [%s]", gk.Key, ref.Tx(), gk.GetErr, k.cs.Note)
+				case caughtUp && (ref.Tx() != gk.GetTx || ref.HC() != gk.GetHC):
+					k.observe(last, "get-after-reindex", "DIFFERENT:stale")
+					k.find("get-after-reindex/stale-version-index-caught-up", "Get(%q) returned tx %d (hc %d) although the index reports having indexed all %d txs; the committed log says tx %d (hc %d) [%s]", gk.Key, ref.Tx(), ref.HC(), n, gk.GetTx, gk.GetHC, k.cs.Note)
+				case caughtUp:
+					k.observe(last, "get-after-reindex", "identical")
+				default:
+					k.observe(ref.Tx(), "get-after-reindex", "genuine-version(index-lagging)")
+				}
 			}
-			if caughtUp {
-				k.observe(last, "history-after-reindex", "identical")
-			} else {
-				k.observe(last, "history-after-reindex", "genuine-prefix(index-lagging)")
+			var refs []store.ValueRef
+			k.call("history-after-reindex", func() { refs, _, err = st.History(gk.Key, 0, false, 100) })
+			if k.abort {
+				return
+			}
+			if err != nil {
+				o := errClass(err)
+				if err.Error() == gk.HistErr {
+					o = "identical(" + o + ")"
+				}
+				if caughtUp && gk.HistErr == "" {
+					k.observe(last, "history-after-reindex", "DIFFERENT:error-on-caught-up-index")
+					if errors.Is(err, store.ErrKeyNotFound) {
+						k.find("history-after-reindex/key-missing-index-caught-up", "History(%q) says key not found although the index reports having indexed all %d txs [%s]", gk.Key, n, k.cs.Note)
+					}
+				} else {
+					k.observe(last, "history-after-reindex", o)
+				}
+				continue
+			}
+			var got []uint64
+			for _, r := range refs {
+				got = append(got, r.Tx())
+			}
+			isPrefix := len(got) <= len(gk.Versions)
+			for i := 0; isPrefix && i < len(got); i++ {
+				isPrefix = got[i] == gk.Versions[i]
+			}
+			switch {
+			case !isPrefix:
+				k.observe(last, "history-after-reindex", "DIFFERENT:versions")
+				k.find("history-after-reindex/versions-differ", "History(%q) returned txs %v, the committed log says %v [%s]", gk.Key, got, gk.Versions, k.cs.Note)
+			case caughtUp && len(got) != len(gk.Versions):
+				k.observe(last, "history-after-reindex", "DIFFERENT:short")
+				k.find("history-after-reindex/versions-missing-index-caught-up", "History(%q) returned txs %v although the index reports having indexed all %d txs; the committed log says %v [%s]", gk.Key, got, n, gk.Versions, k.cs.Note)
+			default:
+				for _, r := range refs {
+					if !checkRef("history-after-reindex", gk.Key, r) || k.abort {
+						break
+					}
+				}
+				if caughtUp {
+					k.observe(last, "history-after-reindex", "identical")
+				} else {
+					k.observe(last, "history-after-reindex", "genuine-prefix(index-lagging)")
+				}
 			}
 		}
 	}
